@@ -46,7 +46,9 @@ SNIPPETS = [
     'type Loop { vftable { fn f(&self, l: Loop) -> Loop; } }', 'pub extern x: Missing;', '#[address(1)] pub extern x: [[[[u8; 2]; 2]; 2]; 2];',
     'type T { a: [u8; 18446744073709551615] }', 'type T { a: [[u64; 4294967296]; 4294967296] }', 'type T { a: unknown<18446744073709551615>, b: u8 }',
     '#[size(18446744073709551615)] type T { a: u8 }', '#[align(9223372036854775808)] type T { a: u8 }',
-    'type T { #[address(9223372036854775807)] a: u64 }', 'enum E: u64 { A = 9223372036854775807, B }', 'enum E: i8 { A = -128, B = 127, C }',
+    'type T { #[address(9223372036854775807)] a: u64 }', 'type T { a: *mut Array<SharedPtr<Item>>>, b: Foo<Bar<>>>> }',
+    'type T { a: Foo>, b: Foo<<>, c: Foo<, d: <> }', 'type T { a: Map<K, V>, b: Vec<> } impl T { #[address(1)] fn f(&self, a: Foo>>) -> Bar<; }',
+    'extern type Shared<T>>; pub extern g: Shared>;', 'enum E: u64 { A = 9223372036854775807, B }', 'enum E: i8 { A = -128, B = 127, C }',
 ]
 
 def text_case(cid, files, ps=4):
